@@ -5,7 +5,7 @@ CFG = dict(
                "(location interning, id hand-out, mapping assignment, clean-up) shows one sample per raw sample in order with "
                "exactly its addresses, values and block-size label; the documented conversion convert_* of each of the five "
                "formats (Go count, heap family, contention/mutex, threadz, binary CPU) meets the specification's sample clause; "
-               "the CPU signal-handler frame is unique (map order immaterial); CPU header probing accepts exactly the word "
+               "an effective heap sampling rate <= 1 means raw values (model and spec); the CPU signal-handler frame is unique (map order immaterial); CPU header probing accepts exactly the word "
                "size/byte order written; the parser model converts every printed Go-count record line as documented. "
                "The parser model (hand recognisers for the 12 regexps, bufio.Scanner, strconv) is tied to /repo's ParseData by "
                "2,000+ differential cases per quick run (printed documents, layout variants, token mutations), and the "
@@ -18,7 +18,7 @@ CFG = dict(
                "model (class 900, skipped and counted). Trusted: Coq kernel + vm_compute, harness, Go printers (cross-checked against the Coq "
                "printers on every doc case).",
     rule="inputs = (kind, format, abstract document, printed bytes, exp table): per round one random document of each of the five "
-         "formats (records with shared/adjacent/extreme addresses, zero counts, alloc columns, every heap header variant and rate, "
+         "formats (records with shared/adjacent/extreme addresses, zero counts, alloc columns, every heap header variant, rates none/1/2/3/small/524288 (effective rate exactly 1 included) x tiny 1-8 byte blocks with counts up to 40000, "
          "attribute blocks, same-as-previous threads, all four CPU word layouts with shared second frames at the len/32 margin, "
          "memory maps in /proc/maps, brief and gperftools form with adjacent/offset/main-binary/hugepage/non-executable entries), "
          "its layout variants (CRLF, no final newline, column alignment, interleaved comments, symbolized thread lines) and 1-3 "
